@@ -59,7 +59,7 @@ CHECKS = {
             'DESIGN.md section 5, C06'),
     'C07': ('exhaustive enumeration of call notations x configurations with the random id generators as environment choice points '
             '(all answers enumerated), real client wired to the real dispatcher in-process; the registered python function called '
-            'directly is the reference',
+            'directly is the reference; the same enumeration end to end through the real client backends and web-framework integrations',
             '5 single-call and 6 batch notations x 4 sync/async pairings x 7 id generators (incl. ids from 0) x strict on/off x 9 method '
             'behaviours (typed / falsy-data / hierarchy / unregistered errors, library and ordinary exceptions, underscore names) x '
             'argument shapes; all call/notify strings up to length 4: one valid request document per send with distinct ids, caller gets the '
@@ -108,7 +108,7 @@ CHECKS = {
             'DESIGN.md section 5, C12'),
     'C13': ('(a) exhaustive enumeration of request histories without state merging, differential against a fresh dispatcher; '
             '(b) invariant over growing histories with weak references and cache sizes; (c) CHESS-style exhaustive thread '
-            'interleaving exploration with preemption bounding (sys.settrace line-level scheduler over real threads)',
+            'interleaving exploration with preemption bounding (sys.settrace line-level scheduler over real threads); (c\') exhaustive enumeration of the completion orders of overlapping asynchronous dispatches on a virtual event loop',
             'All histories of length <= 2/3 over 33 requests (functions, context / context-less / validated views, shared validators, '
             'handlers) followed by all probes equal the fresh answers; after 1110 dispatches (same request or all different) no context / '
             'view / per-request object is alive and nothing grows; 19 request pairs on 2 threads (<= 2 preemptions) and 3 triples on 3 '
@@ -132,7 +132,7 @@ CHECKS = {
             'trusted: canonicalisation (prefix, name->function map) - sound because a registry\'s future depends only on that map and its prefix',
             'DESIGN.md section 5, C15'),
     'C16': ('exhaustive enumeration of ordered method sets x annotation bundles x extractor stacks x document kinds with repeated '
-            'generation on the real spec generators; invariants + differential (method documented alone, fresh generator) + official meta-schemas',
+            'generation on the real spec generators; invariants + differential (method documented alone, fresh generator) + official meta-schemas; documents fetched from the real integrations and every documented path#method replayed against the same application',
             'Ordered sets of 1..2/3 atoms from a 16-atom core (thorough: pairs from a 61-atom product) x 6 extractor stacks x {OpenAPI 3.1, '
             '3.0, OpenRPC} x endpoint prefixes / several endpoints x status-map / global-prefix variants x 2-3 generations, re-used '
             'specification objects (A, B, A, A+B, B), late error classes, aliases: JSON-encodable, valid against the vendored meta-schema '
@@ -148,7 +148,7 @@ CHECKS = {
             'trusted: the resolver of $ref inside the generated document (props/c17.py)',
             'DESIGN.md section 5, C17'),
     'C18': ('exhaustive enumeration of requests (media type x body x status function x path / endpoint) against the real HTTP integrations '
-            'in-process, differential against a twin dispatcher called directly and across integrations',
+            'in-process, differential against a twin dispatcher called directly and across integrations; exhaustive request sequences of bounded length on one long-lived application, each reply compared with a fresh application',
             '{aiohttp, flask, werkzeug, werkzeug via wsgi_app} x 26 media types x 15 bodies x 4 status-by-error functions x 3 paths, '
             'additional endpoints (plain, sub-application / blueprint, child application, main endpoint among siblings): documented types '
             'are relayed with the dispatcher\'s document, JSON content type and status_by_error(codes); nothing -> empty 200; other types -> '
@@ -156,7 +156,7 @@ CHECKS = {
             'trusted: werkzeug / flask test clients, aiohttp make_mocked_request + Application._handle (a raised HTTPException is the response)',
             'DESIGN.md section 5, C18'),
     'C19': ('stateless exploration of the complete tree of per-attempt outcomes incl. decode / identity failures and BaseException '
-            'on the real sync/async client; invariant on the tracer event log of every execution',
+            'on the real sync/async client; invariant on the tracer event log of every execution; CHESS-style preemption-bounded exploration of two threads sharing one traced client',
             'retry strategies of 0..3/4 attempts x 0..3 tracers (full, begin/end only, super-chaining, equal-but-distinct) x 4 request kinds x '
             'default/supplied trace context x sync/async x call / send / client(...) / proxy, also from inside an except block: every attempt '
             'has, for every tracer in order, one begin and exactly one completion (end with the attempt\'s response or error with the very '
